@@ -1,6 +1,106 @@
 """Re-enactment of counterexamples of *stubbed* harnesses through redb's public API.
-Filled in per harness family; a family without a scenario reports `reproduced: False`."""
+
+The native tool /verif/replay_tool is built against the scratch overlay (a verbatim copy of
+/repo's working tree; the cfg(kani) harness modules compile out) and the scenario(s) that
+correspond to the failed harness are run.  A scenario that finds a violation of the property's
+statement against the real code is what gets reported; otherwise the solver's counterexample
+is inconclusive (the harness model or a stub may be wrong).
+"""
+import json
+import os
+import shutil
+import subprocess
+import threading
+
+VERIF = os.path.dirname(os.path.dirname(os.path.abspath(__file__)))
+TOOL_SRC = os.path.join(VERIF, "replay_tool")
+
+# annotation `replay=scenario:<name>` -> scenarios of replay_tool to run, in order
+MAP = {
+    "commit_events": ["events", "crash", "fault"],
+    "crash": ["crash"],
+    "non_durable": ["events", "crash"],
+    "shutdown": ["crash", "close", "fault"],
+    "fault": ["fault", "crash"],
+    "close": ["close"],
+    "slot_alter": ["alter", "crash"],
+    "header_fuzz": ["alter", "crash", "close"],
+    "header_layout": ["alter", "crash"],
+    "page_alter": ["alter"],
+}
+
+_lock = threading.Lock()
+
+
+def _env():
+    env = dict(os.environ)
+    env["CARGO_NET_OFFLINE"] = "true"
+    env.pop("RUSTFLAGS", None)
+    return env
+
+
+def build_tool(ov):
+    """build replay_tool against the overlay in ov; returns path of the binary or raises"""
+    with _lock:
+        rt = os.path.join(ov, "rt")
+        binp = os.path.join(rt, "target", "debug", "replay_tool")
+        if os.path.exists(binp):
+            return binp
+        os.makedirs(rt, exist_ok=True)
+        redb_path = os.path.join(ov, "cur") if os.path.isdir(os.path.join(ov, "cur", "src")) else ov
+        shutil.copytree(os.path.join(TOOL_SRC, "src"), os.path.join(rt, "src"), dirs_exist_ok=True)
+        toml = open(os.path.join(TOOL_SRC, "Cargo.toml")).read().replace("REDB_PATH", redb_path)
+        open(os.path.join(rt, "Cargo.toml"), "w").write(toml)
+        # the overlay's own Cargo.toml declares an empty [workspace]; harmless for a path dependency
+        p = subprocess.run(["cargo", "build", "--offline"], cwd=rt, env=_env(), stdout=subprocess.PIPE,
+                           stderr=subprocess.STDOUT, text=True, errors="replace")
+        if p.returncode != 0 or not os.path.exists(binp):
+            raise RuntimeError("replay_tool does not build against the working tree: " + p.stdout[-1500:])
+        return binp
+
+
+def run_scenarios(ov, names):
+    binp = build_tool(ov)
+    results = []
+    for n in names:
+        try:
+            p = subprocess.run([binp, n], cwd=os.path.join(ov, "rt"), stdout=subprocess.PIPE, stderr=subprocess.STDOUT,
+                               text=True, errors="replace", timeout=1800)
+        except subprocess.TimeoutExpired:
+            results.append({"scenario": n, "reproduced": False, "error": "timeout"})
+            continue
+        line = [l for l in p.stdout.splitlines() if l.startswith("{")]
+        try:
+            r = json.loads(line[-1]) if line else {"scenario": n, "reproduced": False, "error": p.stdout[-500:]}
+        except ValueError:
+            r = {"scenario": n, "reproduced": False, "error": p.stdout[-500:]}
+        r["exit"] = p.returncode
+        results.append(r)
+        if r.get("reproduced"):
+            break
+    return results
 
 
 def reenact(prop, res, ov, rec):
-    return {"reproduced": False, "mode": "none", "why": "no native re-enactment scenario for harness %s" % res.h.name}
+    mode = res.h.replay
+    if not mode.startswith("scenario:"):
+        return {"reproduced": False, "mode": "none",
+                "why": "harness %s has no native replay (replay=%s)" % (res.h.name, mode)}
+    names = MAP.get(mode.split(":", 1)[1], [])
+    try:
+        results = run_scenarios(ov, names)
+    except Exception as e:  # noqa: BLE001
+        return {"reproduced": False, "mode": "public-API re-enactment", "why": str(e)}
+    hit = [r for r in results if r.get("reproduced")]
+    out = {
+        "mode": "public-API re-enactment by /verif/replay_tool (native, real code)",
+        "scenarios_run": names,
+        "results": results,
+        "reproduced": bool(hit),
+    }
+    if hit:
+        out["violation"] = hit[0]
+        rec["scenario"] = hit[0]["scenario"]
+    else:
+        out["why"] = "no scenario of %s reproduced a violation through the public API" % names
+    return out
